@@ -130,7 +130,10 @@ def main():
     impl = model = []
     harness_err = None
     stats = {}
-    if not trans_err:
+    special = None
+    if not trans_err and P.get("special"):
+        special = P["special"](tier, seed)
+    if not trans_err and P.get("gen"):
         Ls = P.get("Ls", {}).get(tier, [0, 3])
         exe = build_harness.build(Ls, san=P.get("san", 1))
         if exe is None:
@@ -183,6 +186,17 @@ def main():
     # impl-vs-impl group oracles
     for grp_fail in props.group_oracles(pid, cases):
         oracle_fail.append(grp_fail)
+    special_broken = []
+    if special:
+        for (what, rp, found) in special["fails"]:
+            if found:
+                sc = props.Case(rp.get("cmd", ""), rp, "special")
+                sc.impl_out = json.dumps(rp)[:2000]
+                oracle_fail.append((-1, sc, what))
+            else:
+                special_broken.append(what)
+        for k, v in special["dist"].items():
+            dist[k] = dist.get(k, 0) + v
 
     def write_replay(name, obj):
         path = os.path.join(replay_dir, name)
@@ -213,13 +227,14 @@ def main():
     for kid, n in known_hits.items():
         kf = next(k for k in known if k["id"] == kid)
         out_lines.append(f"KNOWN-FINDING: property={pid} {kf['what']} ({n} cases)")
-    if exit_code == 0 and (broken_obligation or corr_breaks or harness_err):
+    if exit_code == 0 and (broken_obligation or corr_breaks or harness_err or special_broken):
         # no failing input found by the oracles: still a violation — the property is no longer shown to hold
         what = []
         if broken_obligation:
             what += obl["errors"]
         if harness_err:
             what.append(harness_err)
+        what += special_broken
         first = None
         if corr_breaks:
             i, c = corr_breaks[0]
@@ -247,10 +262,10 @@ def main():
                              "model files lean/Micm/Model/*.lean stand for the C++ source"],
             "theorems": thms,
             "partial": [t["name"] for t in thms if t["partial"]],
-            "evaluations": len(cases),
-            "distinct_nontrivial": len(nontrivial),
+            "evaluations": len(cases) + (special["evaluations"] if special else 0),
+            "distinct_nontrivial": len(nontrivial) + (special["nontrivial"] if special else 0),
             "rule": P["rule"],
-            "samples": [c.line[:400] for c in cases[:3]] + [c.line[:400] for c in cases[-1:]],
+            "samples": [c.line[:400] for c in cases[:3]] + [c.line[:400] for c in cases[-1:]] + (special["samples"] if special else []),
             "traces_validated_against_impl": sum(1 for c in cases if c.compare),
             "correspondence_breaks": len(corr_breaks),
             "oracle_failures": len(oracle_fail),
